@@ -161,11 +161,9 @@ def check(world) -> Dict[str, Any]:
     from mc import htaenv
 
     viol: List[Any] = []
-    evs = cpworlds.build(world)
+    ta, rank, evs, m = cpworlds.load(world)
     rows = refmodel.parse_rows(evs)
-    m = min(r["ts"] for r in rows)
-    ta, _ = htaenv.load_world({0: evs})
-    kept = {int(i) for i in ta.t.get_trace(0).index}
+    kept = {int(i) for i in ta.t.get_trace(rank).index}
     execs = 0
     agg = {"launch": 0, "kk": 0, "sync": 0}
     clipped = False
@@ -174,7 +172,7 @@ def check(world) -> Dict[str, Any]:
         for flag in ((world["flag"],) if ann else (0, 1)):
             def run():
                 try:
-                    return cpworlds.analyse(ta, ann, inst, flag)
+                    return cpworlds.analyse(ta, ann, inst, flag, rank)
                 except Exception as ex:
                     import traceback
 
